@@ -188,6 +188,13 @@ def step (s : St) (line : String) : St × String :=
     let i : Cmds.CommitIn := ⟨entriesIn ix, (if sn == "none" then none else some (entriesIn sn)), opt br, anyB == "1",
       opt cl, opt cg, intOf unix, intOf off, unhex msg⟩
     (s, resOut (fun r => hexOut r.1) (Cmds.commitCmd sha1Fn i))
+  | ["cmd.reset", so, mi, ha, arg, lg, sn, ix] =>
+    let snaps : List (Bytes × List Entry) := (if sn == "-" then [] else sn.splitOn ";").filterMap fun x =>
+      match x.splitOn "=" with
+      | [c, es] => some (unhex c, entriesIn es)
+      | _ => none
+    (s, resOut (fun r => hexOut r.target ++ " " ++ entriesOut r.index ++ " " ++ (if r.hard then "1" else "0"))
+      (Cmds.resetCmd (so == "1") (mi == "1") (ha == "1") (unhex arg) (unhex lg) snaps (entriesIn ix)))
   | "cmd.restore-staged" :: ix :: sn :: args :: [] =>
     let r := Cmds.restoreStagedArgs (entriesIn sn) ((splitList args).map unhex) (entriesIn ix)
     (s, (if r.1 then "ok " else "err ") ++ entriesOut r.2)
